@@ -281,7 +281,7 @@ func (e *Exec) selectElem(a *ArrayV, idx *Term) Value {
 	}
 	lo, hi := 0, len(a.E)-1
 	// narrow by cheap bound
-	if ub := ubound(idx); ub < uint64(hi) {
+	if ub := e.tc.ubound(idx); ub < uint64(hi) {
 		hi = int(ub)
 	}
 	res, ok := a.E[hi].(*Term)
